@@ -167,6 +167,8 @@ def mk_index_multi(rng, s):
             uflag = True
         indices = (np.asarray(vals, dtype=np.int32), part(n1))
     out = index_out_structure(s, indices)
+    if any(len(l.shape) == 0 or 0 in l.shape for l in leaves_of(out)):
+        return None        # the other generators assume leaves with at least one non-empty axis
     jind = tuple(jnp.asarray(e) if isinstance(e, np.ndarray) else e for e in indices)
     return IndexOperator(jind, in_structure=s, out_structure=out, unique_indices=uflag)
 
@@ -305,7 +307,7 @@ def mk_polarizer(rng, s):
 
 
 def mk_dense(rng, s, square=False):
-    if not is_single_array(s):
+    if not is_single_array(s) or len(s.shape) < 1:
         return None
     n = s.shape[0]
     m = n if square else rng.choice([1, 2, 3])
